@@ -37,7 +37,9 @@ var trUnits = []*trUnit{
 		"Multiply", "newNormalizedPrices", "Prices.addPrice", "Prices.Insert", "NormalizedPrices.Price", "NormalizedPrices.Valuate",
 		"Prices.normalize", "Prices.Normalize",
 	}},
-	{pkg: "lib/journal", mod: "Journal", funcs: []string{"ComputePrices", "Valuate", "Filter", "CloseAccounts"},
+	{pkg: "lib/model", mod: "Model", funcs: nil},
+	{pkg: "lib/journal", mod: "Journal", funcs: []string{"ComputePrices", "Valuate", "Filter", "CloseAccounts", "CompareDays", "New", "Builder.Day", "Builder.Build",
+		"Builder.Add", "Builder.Period"},
 		agree: map[string]string{"ComputePrices": "Process", "Valuate": "Process", "Filter": "Process", "CloseAccounts": "Process"}},
 }
 
